@@ -137,6 +137,9 @@ class Interpreter(BaseInterpreter[TContext, TEvent]):
         self._raise_depth: int = 0
         #: True while `_run_event_loop` is inside `_process_event...`.
         self._processing: bool = False
+        #: Set once `start()` has entered and settled the initial
+        #: configuration; the run loop consumes nothing before that.
+        self._initial_entry_done: asyncio.Event = asyncio.Event()
 
         logger.info("✅ Asynchronous Interpreter '%s' initialized.", self.id)
 
@@ -197,6 +200,7 @@ class Interpreter(BaseInterpreter[TContext, TEvent]):
             and self._event_loop_task is None
         ):
             logger.info("♻️ Resuming restored interpreter '%s'...", self.id)
+            self._initial_entry_done.set()
             if self.status == "running":
                 self._event_loop_task = asyncio.create_task(
                     self._run_event_loop()
@@ -253,6 +257,8 @@ class Interpreter(BaseInterpreter[TContext, TEvent]):
             # unrelated event happened to nudge it. `start()` must return a
             # settled configuration in BOTH engines.
             await self._settle_transient_transitions()
+            # 🚦 Only now may the run loop consume queued events.
+            self._initial_entry_done.set()
 
             logger.info(
                 "✅ Interpreter '%s' started successfully. Current states: %s",
@@ -422,6 +428,11 @@ class Interpreter(BaseInterpreter[TContext, TEvent]):
         #    any volume is never throttled.
         limit = getattr(self.machine, "max_iterations", 1000)
         try:
+            # 🚦 Events sent or raised while `start()` is still descending
+            #    into the initial configuration (an async entry action yields
+            #    to this task) must wait: processing them here transitioned
+            #    away from a half-built configuration.
+            await self._initial_entry_done.wait()
             while self.status == "running":
                 # 📬 Wait indefinitely for the next event from the queue.
                 event = await self._event_queue.get()
